@@ -103,7 +103,9 @@ func c02Deliver(c *deliverCtx) {
 		}
 	}
 	// 4. bytes that are not a genuine message for this receiver never reach the cipher
-	if spy != nil && spy.count("Decrypt") > 0 {
+	// (a datagram with a VALID checksum made by a key holder legitimately does, even if malformed)
+	authenticHere := d.Authentic && s.Fault == nil && toSA == d.SA && c.toRole != d.From
+	if spy != nil && spy.count("Decrypt") > 0 && !authenticHere {
 		w.violate("decrypt_before_verify", faultName(s), "cipher Decrypt was called on a %s datagram whose checksum cannot have verified: %s", faultName(s), spy)
 	}
 	if !ok {
@@ -333,6 +335,13 @@ func genC02(r *Rng, idx int, tier string) *Scenario {
 		if r.Chance(1, 2) {
 			sc.Steps = append(sc.Steps, Step{Op: "sweep", Sweep: "sknext", Dgram: t, Rx: rx(), Obj: obj()})
 		}
+	}
+	// authentic but malformed: valid checksum, impossible pad length / IV only / misaligned / too short
+	for k := r.Intn(3); k > 0; k-- {
+		id := nmsg + 10 + k
+		from := Pick(r, "I", "R")
+		sc.Steps = append(sc.Steps, Step{Op: "ref_send_malformed", SA: 0, Dgram: id, From: from, Src: Pick(r, "badpad", "ivonly", "misaligned", "shortbody"), SpiI: r.U64()},
+			Step{Op: "deliver", Dgram: id, Rx: rx(), Obj: obj()})
 	}
 	// seeded single faults
 	nf := r.Range(10, 60)
